@@ -918,39 +918,50 @@ func (multi *MultiEpoch) processSlotTransactions(
 				startTime := time.Now()
 				klog.V(2).Infof("Starting GSFA query for account %s, from slot %d to %d", pKey.String(), startSlot, endSlot)
 
-				epochToTxns, err := gsfaReader.GetBeforeUntilSlot(
-					queryCtx,
-					pKey,
-					batchSize,
-					endSlot+1, //  Before (exclusive)
-					startSlot, // Until (inclusive)
-					func(epochNum uint64, oas linkedlog.OffsetAndSizeAndSlot) (*ipldbindcode.Transaction, error) {
-						fnStartTime := time.Now()
-						defer func() {
-							klog.V(4).Infof("GSFA transaction lookup for epoch %d took %s",
-								epochNum, time.Since(fnStartTime))
-						}()
-						epoch, err := multi.GetEpoch(epochNum)
-						if err != nil {
-							return nil, fmt.Errorf("failed to get epoch %d: %w", epochNum, err)
-						}
-						raw, err := epoch.GetNodeByOffsetAndSize(ctx, nil, &indexes.OffsetAndSize{
-							Offset: oas.Offset,
-							Size:   oas.Size,
-						})
-						if err != nil {
-							return nil, fmt.Errorf("failed to get signature: %w", err)
-						}
-						decoded, err := iplddecoders.DecodeTransaction(raw)
-						if err != nil {
-							return nil, fmt.Errorf("error while decoding transaction from nodex at offset %d: %w", oas.Offset, err)
-						}
-						return decoded, nil
-					},
-				)
-				if err != nil {
-					errChan <- err
-					return
+				fetcher := func(epochNum uint64, oas linkedlog.OffsetAndSizeAndSlot) (*ipldbindcode.Transaction, error) {
+					fnStartTime := time.Now()
+					defer func() {
+						klog.V(4).Infof("GSFA transaction lookup for epoch %d took %s",
+							epochNum, time.Since(fnStartTime))
+					}()
+					epoch, err := multi.GetEpoch(epochNum)
+					if err != nil {
+						return nil, fmt.Errorf("failed to get epoch %d: %w", epochNum, err)
+					}
+					raw, err := epoch.GetNodeByOffsetAndSize(ctx, nil, &indexes.OffsetAndSize{
+						Offset: oas.Offset,
+						Size:   oas.Size,
+					})
+					if err != nil {
+						return nil, fmt.Errorf("failed to get signature: %w", err)
+					}
+					decoded, err := iplddecoders.DecodeTransaction(raw)
+					if err != nil {
+						return nil, fmt.Errorf("error while decoding transaction from nodex at offset %d: %w", oas.Offset, err)
+					}
+					return decoded, nil
+				}
+				// The index answers at most `limit` transactions and has no cursor to continue from:
+				// when a query comes back full, the range may hold more, so ask again with a larger limit
+				// until the answer is shorter than the limit (i.e. the whole range has been returned).
+				var epochToTxns gsfa.EpochToTransactionObjects
+				for limit := batchSize; ; limit *= 2 {
+					var err error
+					epochToTxns, err = gsfaReader.GetBeforeUntilSlot(
+						queryCtx,
+						pKey,
+						limit,
+						endSlot+1, //  Before (exclusive)
+						startSlot, // Until (inclusive)
+						fetcher,
+					)
+					if err != nil {
+						errChan <- err
+						return
+					}
+					if epochToTxns.Count() < limit {
+						break
+					}
 				}
 				duration := time.Since(startTime)
 				klog.V(2).Infof("GSFA query completed for account %s, from slot %d to %d took %s", pKey.String(), startSlot, endSlot, duration)
